@@ -163,6 +163,8 @@ func init() {
 		// round 9: the files a successful compilation leaves behind are the files the generators returned - nothing under compile
 		// but the writer touches the file system (a clean-up pass that removes "stale" files removes another target's output when two
 		// output directories are nested or equal)
+		r.refile("C16/writer", "C07/writer", func(sr *Report) { c16Compile(w, sr) }, func(o Obligation) bool { return strings.Contains(o.Key, "created truncated") })
+		visitorKeepsNoPacketState(w, r, "C07")
 		r.refile("C16/compile-writes-only-in-writer", "C07/compile-writes-only-in-writer", func(sr *Report) { c16Compile(w, sr) }, nil)
 		c12OptionValidation(w, r, "C07") // a value outside the documented list reaches the type tables as a missing row: empty type names in the output
 		wireTemplateTaint(w, wc, r, "C07", []string{"go", "rust", "java", "python", "cpp", "lua"})
@@ -176,6 +178,11 @@ func init() {
 		kindArmDoesSomething(w, wc, r, "C17", map[string]bool{"test": true})
 		c17CopyBack(w, wc, r)
 		c17StickyState(w, wc, r)
+		// round 9: the emitted tests are the files the generators returned: created truncated (a file that keeps the tail of an older,
+		// longer revision is not a program), and built from a model whose per-packet tables were not lost to visitor state that the
+		// walk into an inline object overwrote (samples are made from Packet.MatchFields)
+		r.refile("C16/writer", "C17/writer", func(sr *Report) { c16Compile(w, sr) }, func(o Obligation) bool { return strings.Contains(o.Key, "created truncated") })
+		visitorKeepsNoPacketState(w, r, "C17")
 		wireEmitOnceKeys(w, wc, r, "C17")
 		goImportsUsed(w, wc, r, "C17")
 		wireBracketBalance(w, wc, r, "C17", map[string]bool{"test": true})
